@@ -81,6 +81,7 @@ def ctlseq_world(ctx, eng):
 @unit(("C06", "C07", "C10"), "_renderable:Renderable._animate_")
 def u_animate(ctx):
     eng = ctx.engine("C06/_animate_", "C06")
+    eng.default_replay = {"C06": "C06.draw", "C07": "C07.draw_faults", "C10": "C10.faults", "C13": "C07.draw_faults"}
     st = State()
     ctlseq_world(ctx, eng)
     w, h, l, t, r, b = z3.Ints("w h pad_l pad_t pad_r pad_b")
@@ -193,6 +194,7 @@ def draw_unit(animated_case):
     @unit(("C06", "C07", "C10", "C13"), f"_renderable:Renderable.draw[{'animation' if animated_case else 'still'}]")
     def u(ctx, animated_case=animated_case):
         eng = ctx.engine(f"C06/draw[{'animation' if animated_case else 'still'}]", "C06")
+        eng.default_replay = {"C06": "C06.draw", "C07": "C07.draw_faults", "C10": "C10.faults", "C13": "C07.draw_faults"}
         st = State()
         ctlseq_world(ctx, eng)
         fault = tty.install(eng, faults=("KeyboardInterrupt", "OSError"))
@@ -393,6 +395,7 @@ def u_init_render(ctx):
     obs = []
     for pad_kind in ("none", "exact", "aligned-relative"):
         eng = ctx.engine(f"C06/_init_render_[padding={pad_kind}]", "C06")
+        eng.default_replay = {"C06": "C06.draw", "C07": "C07.draw_faults", "C10": "C10.faults", "C13": "C07.draw_faults"}
         st = State()
         w, h, l, t, r, b, tw, th = z3.Ints("w h pad_l pad_t pad_r pad_b tw th")
         st.pc += [w >= 1, h >= 1, l >= 0, t >= 0, r >= 0, b >= 0, tw >= 1, th >= 1]
@@ -482,37 +485,84 @@ def u_init_render(ctx):
 
 @unit(("C10", "C05"), "_renderable:Renderable.render/__str__")
 def u_render_str(ctx):
-    """render() and __str__() go through _init_render_ with the default finalize=True"""
+    """render() and __str__(): whatever route they take, every RenderData created by the call is finalized exactly once on
+    every exit (normally by going through _init_render_ with finalize left on), and never used after finalization"""
     obs = []
     for name in ("render", "__str__"):
         eng = ctx.engine(f"C10/Renderable.{name}", "C10")
+        eng.default_replay = {"C10": "C10.faults", "C05": "C05.pad"}
         st = State()
         self_ = st.new("MyRenderable", {})
         eng.classes["MyRenderable"] = ("Renderable",)
         w, h, l, t, r, b = z3.Ints("w h pad_l pad_t pad_r pad_b")
-        calls = []
+        st.ghost["created"] = []
+
+        def new_data(e, s):
+            s = e.fork(s)
+            d = s.new("RenderData", {"finalized": False, "fin_calls": 0})
+            s.ghost["created"] = s.ghost["created"] + [d]
+            return d, s
+
+        def finalize(e, s, recv, a, k):
+            s = e.fork(s)
+            hh = s.H(recv)
+            hh["fin_calls"] = hh["fin_calls"] + (0 if hh["finalized"] else 1)
+            hh["finalized"] = True
+            return [(None, s)]
+        eng.methods[("RenderData", "finalize")] = finalize
+        eng.methods[("RenderData", "__getitem__")] = lambda e, s, recv, a, k: [(s.new("RenderableData", {"size": size_rec(w, h)}), s)]
+
+        def render_(e, s, recv, a, k):
+            e.oblige("C10:render-data-not-finalized-at-render", s, isinstance(a[0], Ref) and s.H(a[0])["finalized"] is False, kind="pre")
+            for exc in ("Boom", "KeyboardInterrupt", "StopIteration"):
+                e.raise_(ExcVal(exc), e.fork(s), fault=True)
+            return [(Rec("Frame", {"number": 0, "duration": 0, "render_size": size_rec(w, h), "render_output": TS([Block(1, w, h)])}), s)]
+        eng.methods[("Renderable", "_render_")] = render_
+
+        def get_render_data(e, s, recv, a, k):
+            e.raise_(ExcVal("Boom"), e.fork(s), fault=True)
+            return [new_data(e, s)]
+        eng.methods[("Renderable", "_get_render_data_")] = get_render_data
 
         def init_render(e, s, recv, a, k):
-            e.oblige("C10:finalize-not-disabled(data-finalized-by-_init_render_)", s, k.get("finalize", True) is True, kind="pre")
-            e.oblige("C10:renders-through-_render_", s, isinstance(a[0], Bound) and a[0].name == "_render_", kind="pre") if False else None
-            e.raise_(ExcVal("Boom"), e.fork(s))
-            fr = Rec("Frame", {"number": 0, "duration": 0, "render_size": size_rec(w, h), "render_output": TS([Block(1, w, h)])})
-            pad = s.new("Padding", {})
-            return [((fr, pad), s)]
+            """contract of _init_render_ (own unit): creates the data, hands it to the renderer, finalizes it on every exit iff finalize"""
+            renderer, fin = a[0], k.get("finalize", True)
+            e.raise_(ExcVal("IncompatibleRenderArgsError"), e.fork(s), fault=True)
+            d, s = new_data(e, s)
+            e.rstack.append([])
+            res = e.call(renderer, (d, Opaque("render_args")), {}, s)
+            raised = e.rstack.pop()
+            outs = []
+            for v, s2 in res:
+                if fin is True:
+                    (_, s2), = finalize(e, s2, d, (), {})
+                pad = s2.new("Padding", {})
+                outs.append(((v, pad), s2))
+            for exc, s2 in raised:
+                if fin is True:
+                    (_, s2), = finalize(e, s2, d, (), {})
+                e.raise_(exc, s2)
+            return outs
         eng.methods[("Renderable", "_init_render_")] = init_render
-        eng.methods[("Renderable", "_render_")] = lambda e, s, recv, a, k: [(Opaque("frame"), s)]
         eng.methods[("Padding", "get_padded_size")] = lambda e, s, recv, a, k: [(size_rec(l + w + r, t + h + b), s)]
         eng.methods[("Padding", "pad")] = lambda e, s, recv, a, k: [(TS([PBlock(1, w, h, l, t, r, b)]), s)]
         eng.genv["Frame"] = Fn(lambda e, s, a, k: [(Rec("Frame", dict(zip(("number", "duration", "render_size", "render_output"), a))), s)])
         eng.genv["NO_PADDING"] = Opaque("NO_PADDING")
+        eng.genv["Renderable"] = ClassV("Renderable")
+        eng.genv["RenderArgs"] = ClassV("RenderArgs")
+        eng.methods["new:RenderArgs"] = lambda e, s, c, a, k: (e.raise_(ExcVal("IncompatibleRenderArgsError"), e.fork(s), fault=True), [(Opaque("render args"), s)])[1]
+        eng.genv["type"] = Fn(lambda e, s, a, k: [(ClassV(a[0].cls) if isinstance(a[0], Ref) else ClassV("object"), s)])
+        eng.genv["get_terminal_size"] = Fn(lambda e, s, a, k: [(Rec("terminal_size", {"columns": z3.Int("tw"), "lines": z3.Int("th")}), s)])
         st.pc += [w >= 1, h >= 1, l >= 0, t >= 0, r >= 0, b >= 0]
         st.env.update(self=self_, render_args=None, padding=Opaque("padding"))
         outs = run_function(eng, ctx.fn(RN, f"Renderable.{name}"), st)
         for kind, val, s in outs:
+            for d in s.ghost["created"]:
+                eng.oblige(f"C10:data-created-by-the-call-finalized-exactly-once@{kind}", s, And(s.H(d)["finalized"] is True, s.H(d)["fin_calls"] == 1), kind="exit")
+            eng.oblige(f"C10:at-most-one-data-object@{kind}", s, len(s.ghost["created"]) <= 1, kind="exit")
             if kind == "raise":
-                eng.oblige("only-render-errors-escape", s, val.cls == "Boom", kind="raise")
+                eng.oblige("only-render-errors-escape", s, val.cls in ("Boom", "KeyboardInterrupt", "StopIteration", "IncompatibleRenderArgsError"), kind="raise")
             elif name == "render":
-                padded = z3.Not(z3.And(l + r == 0, t + b == 0))
                 ok = isinstance(val, Rec) and And(Eq(val.f["render_size"], (l + w + r, t + h + b)))
                 eng.oblige("C05:render()-returns-a-frame-of-the-padded-size", s, ok, prop="C05", kind="post")
         obs += eng.obligations
